@@ -735,6 +735,15 @@ def _download_from_resources(
             cache_miss.post_process_function(temporary_filepath)
             os.replace(temporary_filepath, cache_miss.filepath)
             return True
+        except StopIteration as e:
+            # _worker runs inside map()/imap(): a StopIteration escaping from a
+            # download or post process function (e.g. a bare next() on an
+            # empty iterator) would silently end the iteration over the cache
+            # misses, and the caller would get paths of files that were never
+            # fetched. Turn it into an ordinary error.
+            raise RuntimeError(
+                f"Download of {cache_miss.uri} failed: StopIteration raised"
+            ) from e
         except _RemoteResourceUriNotFound as e:
             if cache_miss.allow_for_missing_files:
                 warning = f"Uri not retrieved: {str(e)}"
